@@ -141,6 +141,35 @@ impl AsRef<[u8]> for LyingAsRef {
     }
 }
 
+/// A `Buf` whose `remaining()` and `advance()` are honest but whose `chunk()` answers differently from call to call: the
+/// `short_at`-th call returns only `short_len` bytes.  Behind the 16 legitimate bytes lie marker bytes (0xEE): a consumer
+/// that checks the length on one `chunk()` call and reads through another lets markers reach the caller.
+struct FlickerBuf {
+    data: Vec<u8>,
+    pos: usize,
+    calls: std::cell::Cell<usize>,
+    short_at: usize,
+    short_len: usize,
+}
+impl Buf for FlickerBuf {
+    fn remaining(&self) -> usize {
+        16 - self.pos
+    }
+    fn chunk(&self) -> &[u8] {
+        let k = self.calls.get();
+        self.calls.set(k + 1);
+        if k > 2000 {
+            panic!("flicker: fuel exhausted");
+        }
+        let end = if k == self.short_at { (self.pos + self.short_len).min(16) } else { 16 };
+        &self.data[self.pos..end]
+    }
+    fn advance(&mut self, n: usize) {
+        assert!(n <= 16 - self.pos, "flicker: advance past the end");
+        self.pos += n;
+    }
+}
+
 struct LyingIter {
     n: usize,
     lower: usize,
@@ -169,6 +198,7 @@ impl Iterator for LyingIter {
 pub const CONSUMERS: &[&str] = &[
     "copy_to_slice", "try_copy_to_slice", "get_u32", "get_u64_le", "get_uint", "try_get_i128", "get_u8", "copy_to_bytes", "take_copy_to_bytes",
     "chain_copy_to_bytes", "take_chunks_vectored", "chain_chunks_vectored", "bytesmut_put", "vec_put", "slice_put", "split_bytesmut_put",
+    "flk_get_u16", "flk_get_u32", "flk_get_u64_le", "flk_get_i128", "flk_get_f64", "flk_get_uint", "flk_copy_to_slice", "flk_copy_to_bytes", "flk_chain_get_u64",
     "limit_put", "into_iter", "reader_read", "chain_get_u64", "cursor_copy_to_slice", "cursor_get_u64", "cursor_copy_to_bytes", "cursor_drain",
 ];
 
@@ -255,6 +285,33 @@ fn consume(name: &str, script: &[Lie], arg: usize) -> Result<String, ()> {
                 format!("{:?}", lb.reader().read(&mut dst).ok())
             }
             "chain_get_u64" => format!("v {}", Buf::chain(&b"ab"[..], lb).get_u64()),
+            n if n.starts_with("flk_") => {
+                // script[0]: rem = which chunk() call is short, chunk = its length, panic_at = start position
+                let l = script.first().copied().unwrap_or(Lie { rem: 0, chunk: 0, panic_at: 0 });
+                let mut data: Vec<u8> = (1..=16u8).collect();
+                data.extend_from_slice(&[0xEE; 48]);
+                let mut f = FlickerBuf { data, pos: (l.panic_at as usize).min(8), calls: std::cell::Cell::new(0), short_at: l.rem, short_len: l.chunk };
+                let got: Vec<u8> = match n {
+                    "flk_get_u16" => f.get_u16().to_be_bytes().to_vec(),
+                    "flk_get_u32" => f.get_u32().to_be_bytes().to_vec(),
+                    "flk_get_u64_le" => f.get_u64_le().to_le_bytes().to_vec(),
+                    "flk_get_i128" => f.get_i128().to_be_bytes().to_vec(),
+                    "flk_get_f64" => f.get_f64().to_bits().to_be_bytes().to_vec(),
+                    "flk_get_uint" => f.get_uint(5).to_be_bytes()[3..].to_vec(),
+                    "flk_copy_to_slice" => {
+                        let mut d = vec![0u8; 8];
+                        f.copy_to_slice(&mut d);
+                        d
+                    }
+                    "flk_copy_to_bytes" => f.copy_to_bytes(8).to_vec(),
+                    _ => Buf::chain(&b"\x01\x02"[..], f).get_u64().to_be_bytes().to_vec(),
+                };
+                if got.iter().any(|b| *b == 0xEE) {
+                    format!("OOB-READ bytes from behind the slice chunk() returned reached the caller: {}", hex(&got))
+                } else {
+                    format!("len {}", got.len())
+                }
+            }
             #[cfg(feature = "std")]
             n if n.starts_with("cursor_") => {
                 // script[0] encodes the owner: rem = answer schedule, chunk = long_len * 1000 + short_len, panic_at = start position
@@ -346,6 +403,9 @@ pub fn run(args: &[String]) -> i32 {
     for i in 0..n {
         let name = CONSUMERS[i % CONSUMERS.len()];
         let mut script = gen_script(&mut rng);
+        if name.starts_with("flk_") {
+            script = vec![Lie { rem: rng.below(4) as usize, chunk: *rng.pick(&[0usize, 1, 3, 7]), panic_at: *rng.pick(&[0u8, 0, 1, 5]) }];
+        }
         if name.starts_with("cursor_") {
             let llen = *rng.pick(&[8usize, 16, 64, 300]);
             let slen = *rng.pick(&[0usize, 1, 3, 7, 8]);
@@ -406,7 +466,8 @@ pub fn run(args: &[String]) -> i32 {
         }
     }
     // iterators with wrong size hints (kept small: a huge lower bound only makes reserve abort/panic)
-    for (n, lower, upper) in [(10usize, 0usize, Some(0usize)), (10, 100, Some(3)), (0, 50, None), (300, 1, Some(1)), (5, 5, Some(2))] {
+    for (n, lower, upper) in [(10usize, 0usize, Some(0usize)), (10, 100, Some(3)), (0, 50, None), (300, 1, Some(1)), (5, 5, Some(2)), (40, 4, Some(4)), (9, 8, Some(8))] {
+        println!("adv-try {}", format!("extend n={} hint={}:{:?}", n, lower, upper).replace(' ', "_"));
         let a1 = ledger::tracked_live_total();
         let _ = ledger::drain_events();
         ledger::track(true);
@@ -427,6 +488,7 @@ pub fn run(args: &[String]) -> i32 {
     for (cap0, pre, n, at, lower) in [(0usize, 0usize, 40usize, 10usize, 0usize), (2, 2, 300, 100, 1), (16, 3, 64, 63, 64), (8, 8, 20, 0, 5), (4, 1, 200, 199, 0),
                                       (64, 10, 500, 250, 2), (1, 0, 9, 3, 100)] {
         for kind in ["extend_vec", "extend_adv", "extend_arc", "collect_mut", "collect_bytes"] {
+            println!("adv-try {}", format!("iterpanic kind={} cap={} pre={} n={} at={} lower={}", kind, cap0, pre, n, at, lower).replace(' ', "_"));
             let a1 = ledger::tracked_live_total();
             let _ = ledger::drain_events();
             ledger::track(true);
